@@ -106,6 +106,12 @@ class Run:
         fr = self.request(2, 37, e5ref.encode(("L", [("BOOLEAN", [True]), ("L", [])])))
         if fr is None or fr.body != b"\x21\x01\x00":
             self.ctx.unsure("could not enable the control-state collection events")
+        elif self.ctx.rng.random() < 0.5:
+            # the host links a further report to the (already linked and enabled) events: they stay enabled
+            self.request(2, 33, e5ref.encode(("L", [u4(2), ("L", [("L", [u4(2), ("L", [u4(1002)])])])])))
+            fr = self.request(2, 35, e5ref.encode(("L", [u4(2), ("L", [("L", [u4(c), ("L", [u4(2)])]) for c in self.ctx.rng.sample((1, 2, 3), 2)])])))
+            if fr is not None and fr.body == b"\x21\x01\x00":
+                self.ctx.count("events.further_report_linked_after_enable")
         self.rig.quiesce(1.0)
         self.seen_events = len(self.events())
 
